@@ -167,6 +167,11 @@ fn reference(prog: &[Line], on_error: OnError, tape: &Tape, source: Option<&str>
                     Ans::Crash => return Outcome { calls, end: fail(pc) },
                     Ans::Exit(v) => {
                         set_out(&mut vars, v);
+                        if l.output {
+                            // whether the value given to exit is stored in the output variable is not
+                            // part of the statement: the variable is not compared after such an exit
+                            vars.insert("x".into(), "<open>".into());
+                        }
                         let code = v.and_then(|s| s.parse::<i32>().ok()).unwrap_or(0);
                         if code != 0 {
                             return Outcome { calls, end: fail(pc) };
@@ -269,18 +274,20 @@ impl Rig {
             Some(f) => runner::run_script_file(f, ctx, Some(env)),
             None => runner::run_script(text, ctx, Some(env)),
         };
+        // a source tag is compared as "the same file", not as a spelling of its path
+        let canon = |s: String| std::fs::canonicalize(&s).map(|p| p.to_string_lossy().to_string()).unwrap_or(s);
         let end = match r {
             Ok(c) => Ok(sorted_vars(&c.variables)),
-            Err(e) => Err((err_line(&e), err_source(&e))),
+            Err(e) => Err((err_line(&e), err_source(&e).map(canon))),
         };
         let q = self.tape.borrow().queried();
-        (
-            Outcome {
-                calls: self.calls.borrow().clone(),
-                end,
-            },
-            q,
-        )
+        let mut calls = self.calls.borrow().clone();
+        for c in calls.iter_mut() {
+            if c.cmd == "on_error" && c.args.len() == 3 && !c.args[2].is_empty() {
+                c.args[2] = canon(c.args[2].clone());
+            }
+        }
+        (Outcome { calls, end }, q)
     }
 }
 
@@ -288,6 +295,17 @@ pub fn bounds(tier: Tier) -> Value {
     match tier {
         Tier::Quick => json!({"lines": 3, "deviations": 2, "horizon": 8, "answers_per_choice": 16}),
         Tier::Thorough => json!({"lines": 4, "deviations": 3, "horizon": 8, "answers_per_choice": 16}),
+    }
+}
+
+/// a variable the abstract machine leaves open is not compared
+fn mask_open(got: &mut Outcome, exp: &Outcome) {
+    if let (Ok(g), Ok(e)) = (&mut got.end, &exp.end) {
+        for (k, v) in e {
+            if v == "<open>" {
+                g.insert(k.clone(), "<open>".into());
+            }
+        }
     }
 }
 
@@ -338,7 +356,9 @@ pub fn worker(w: &mut Worker) {
     let rigs: Vec<Rig> = configs.iter().map(|c| Rig::new(*c)).collect();
     let _ = std::fs::create_dir_all(&w.scratch);
     let file = w.scratch.join("c03.ds");
-    let file_s = file.to_string_lossy().to_string();
+    std::fs::write(&file, "").expect("scratch file");
+    let file_raw = file.to_string_lossy().to_string();
+    let file_s = std::fs::canonicalize(&file).map(|p| p.to_string_lossy().to_string()).unwrap_or(file_raw);
     for seq in Strings::new(&idx[..], 1, nmax) {
         let prog: Vec<Line> = seq.iter().map(|&i| forms[i].clone()).collect();
         // a program without any scripted command has a single execution; keep only one per length
@@ -386,6 +406,8 @@ pub fn worker(w: &mut Worker) {
                     };
                     let tape = Tape::with(decided);
                     let exp = reference(&prog, *cfg, &tape, src);
+                    let mut got = got;
+                    mask_open(&mut got, &exp);
                     if got != exp {
                         let sig = classify(&got, &exp);
                         failure = Some((
@@ -483,13 +505,12 @@ pub fn replay(case: &Value) -> Result<String, String> {
     let dir = scratch_root().join(format!("replay-{}", std::process::id()));
     let _ = std::fs::create_dir_all(&dir);
     let f = dir.join("c03.ds");
-    let fs = f.to_string_lossy().to_string();
-    if as_file {
-        std::fs::write(&f, &text).map_err(|e| e.to_string())?;
-    }
+    std::fs::write(&f, &text).map_err(|e| e.to_string())?;
+    let fs = std::fs::canonicalize(&f).map(|p| p.to_string_lossy().to_string()).unwrap_or_else(|_| f.to_string_lossy().to_string());
     let src = if as_file { Some(fs.as_str()) } else { None };
-    let (got, _) = rig.run(&text, prog.len(), src, &decided);
+    let (mut got, _) = rig.run(&text, prog.len(), src, &decided);
     let exp = reference(&prog, cfg, &Tape::with(&decided), src);
+    mask_open(&mut got, &exp);
     let _ = std::fs::remove_dir_all(&dir);
     let mask = |s: String| s.replace(&fs, "<file>");
     Ok(mask(format!("implementation: {:?}\nabstract machine: {:?}\nagree: {}", got, exp, got == exp)))
